@@ -115,6 +115,28 @@ def h_import(env, n=2, via="init", index="default"):
         sgdf.index = [4 + 3 * i for i in range(n)]           # e.g. one half-set / a subset of tomograms selected from a larger table
     if via == "init":
         m = cm.StopgapMotl(sgdf)
+    elif via == "update":
+        # conversion with the coordinate update requested: the RETURNED list has integer x,y,z, |shift| <= 0.5 and the same complete positions
+        m = cm.stopgap2emmotl(sgdf, update_coordinates=True)
+        for i, r in enumerate(rows):
+            a = row(m.df, i)
+            for c, oc, sc in (("x", "orig_x", "x_shift"), ("y", "orig_y", "y_shift"), ("z", "orig_z", "z_shift")):
+                env.check("updated_position_kept_%s_%d" % (c, i), env.eq(a[c] + a["shift_" + c], r[oc] + r[sc]))
+                env.check("updated_integer_%s_%d" % (c, i), env.is_int(a[c]))
+                env.check("updated_half_bound_%s_%d" % (c, i), env.and_(env.le(a["shift_" + c], 0.5), env.ge(a["shift_" + c], -0.5)))
+        return
+    elif via == "copy_after_edit":
+        # a list made from STOPGAP data, edited through the normal interface, then handed on as an object: the copy shows the edits
+        src = cm.StopgapMotl(sgdf)
+        src.df.loc[src.df.index[0], "class"] = 9.0
+        nums = [_conc(env, r["subtomo_num"]) for r in rows]
+        gone = nums[-1]
+        if n > 1 and all(v != gone for v in nums[:-1]):
+            src.remove_feature("subtomo_id", gone)
+            rows = rows[:-1]
+        rows = [dict(r) for r in rows]
+        rows[0]["class"] = 9.0
+        m = cm.stopgap2emmotl(src) if n % 2 == 0 else cm.StopgapMotl(src)
     else:
         m = cm.stopgap2emmotl(sgdf)
     _check_import(env, m.df, rows)
@@ -187,6 +209,7 @@ def jobs(tier, seed):
     j = [("h_export", {"n": n, "reset_index": False}), ("h_export", {"n": n, "reset_index": True}),
          ("h_export", {"n": n, "reset_index": False, "index": "gaps"}),
          ("h_import", {"n": n, "via": "init"}), ("h_import", {"n": n, "via": "stopgap2emmotl"}),
+         ("h_import", {"n": 1, "via": "update"}), ("h_import", {"n": 2, "via": "copy_after_edit"}), ("h_import", {"n": 3, "via": "copy_after_edit"}),
          ("h_import", {"n": n, "via": "init", "index": "permuted"}), ("h_import", {"n": n, "via": "stopgap2emmotl", "index": "gaps"}),
          ("h_roundtrip", {"n": 2, "reset_index": False}),
          ("h_via_file", {"n": 3, "reset_index": False}), ("h_via_file", {"n": 2, "reset_index": True}),
